@@ -504,10 +504,10 @@ def rule_r2(chk) -> None:
     pending = params[2]
     jnames = set()
     for s in walk_shallow(fn):
-        if isinstance(s, ast.Assign) and len(s.targets) == 1 and isinstance(s.targets[0], ast.Name):
+        if isinstance(s, ast.Assign) and all(isinstance(t, ast.Name) for t in s.targets):
             v = strip_await(s.value)
             if isinstance(v, ast.Call) and "journal" in (call_name(v) or "").lower():
-                jnames.add(s.targets[0].id)
+                jnames |= {t.id for t in s.targets}
     if not jnames:
         raise AnchorError("C27.R2: wait_for_next_task does not bind the task journal to a local")
 
@@ -515,8 +515,9 @@ def rule_r2(chk) -> None:
         return [c for c in ast.walk(fn) if isinstance(c, ast.Call) and isinstance(c.func, ast.Attribute) and c.func.attr == name and isinstance(c.func.value, ast.Name) and c.func.value.id in jnames]
 
     rec, adv, load, nxt = jcalls("record"), jcalls("advance"), jcalls("load"), jcalls("next_expected_key")
-    if not rec or not adv or not load or not nxt:
-        raise AnchorError(f"C27.R2: journal protocol calls not all present (record {len(rec)}, advance {len(adv)}, load {len(load)}, next_expected_key {len(nxt)})")
+    if not load or not nxt:
+        raise AnchorError(f"C27.R2: journal protocol calls not all present (load {len(load)}, next_expected_key {len(nxt)})")
+    chk.floor("C27.R2", "journal protocol call sites (record / advance / load / next_expected_key)", len(rec) + len(adv) + len(load) + len(nxt), 2)
     J = [n for c in rec + adv for n in cfg.nodes_of(enclosing_stmt(c))]
     rets = [r for r in walk_shallow(fn) if isinstance(r, ast.Return) and isinstance(r.value, ast.Call) and last(call_name(r.value)) == "WaitForNextTaskResult"]
     chk.floor("C27.R2", "returns of WaitForNextTaskResult", len(rets), 5)
@@ -580,13 +581,27 @@ def rule_r2(chk) -> None:
 
 
 def _slot(cfg: CFG, r: ast.Return) -> str:
-    """Semantic slot of a return: the guard facts that distinguish it (no line numbers)."""
-    fs = set()
-    for n in cfg.nodes_of(r):
-        for t, lab in cfg.guards(n):
-            if t.kind == "test":
-                fs.add(("" if lab == "T" else "not ") + " ".join(ast.unparse(t.ast.test).split())[:40])
-    return "&".join(sorted(fs))[-90:] or "unconditional"
+    """Semantic slot of a return of wait_for_next_task: which protocol outcome it is (never a line number)."""
+    call = r.value
+    first = call.args[0] if call.args else kwarg(call, "completed")
+    if isinstance(first, ast.Constant) and first.value is None:
+        in_handler = any(isinstance(a, ast.ExceptHandler) for a in _ancestors(r))
+        guards = set()
+        for n in cfg.nodes_of(r):
+            for t, lab in cfg.guards(n):
+                if t.kind == "test":
+                    for x in ast.walk(t.ast.test):
+                        if isinstance(x, ast.Name):
+                            guards.add(x.id)
+        return "timeout-in-handler" if in_handler else ("nothing-to-wait-for" if "tasks" in guards and "done" not in guards else "timeout")
+    return "task:" + (first.id if isinstance(first, ast.Name) else "expr")
+
+
+def _ancestors(n: ast.AST):
+    p = parent(n)
+    while p is not None:
+        yield p
+        p = parent(p)
 
 
 def _same_task(cfg: CFG, fn: ast.AST, r: ast.Return, first: ast.AST, rec, adv, nxt) -> tuple[bool, str]:
@@ -819,8 +834,12 @@ def rule_r5(chk) -> None:
                     if isinstance(v, ast.Name):
                         d = strip_await(reaching_def(v.id, r))
                     v = d if d is not None else v
-                    fwd.append(isinstance(v, ast.Call) and isinstance(v.func, ast.Attribute) and v.func.attr == h and
-                               (dotted(v.func.value) == "self._decorated" or (isinstance(v.func.value, ast.Call) and isinstance(v.func.value.func, ast.Name) and v.func.value.func.id == "super")))
+                    recv = v.func.value if isinstance(v, ast.Call) and isinstance(v.func, ast.Attribute) else None
+                    if isinstance(recv, ast.Name):
+                        rdef = reaching_def(recv.id, v)
+                        recv = rdef if rdef is not None else recv
+                    fwd.append(recv is not None and v.func.attr == h and
+                               (dotted(recv) == "self._decorated" or (isinstance(recv, ast.Call) and isinstance(recv.func, ast.Name) and recv.func.id == "super")))
             chk.ob("C27.R5", f"{ac.name}.{h} returns what the wrapped adapter's `{h}` returns", bool(fwd) and all(fwd), m=am, node=f, fn=f, instance=f"forwards:{ac.name}.{h}",
                    reason=f"a decorator of the DBOS chain answers `{h}` itself: the journal / durable clock of InternalDBOSAdapter is bypassed")
     chk.floor("C27.R5", "replay-relevant hooks defined by chain decorators", n, 4)
@@ -850,14 +869,15 @@ TWINS = [
     Twin("R1 durable clock loses its step decorator", _RT, "@DBOS.step()\ndef _durable_time() -> float:", "def _durable_time() -> float:", "C27.R1"),
     Twin("R1 adapter reads the wall clock", _RT, "    async def get_now(self) -> float:\n        return _durable_time()\n", "    async def get_now(self) -> float:\n        return time.time()\n", "C27.R1"),
     Twin("R1 runner stamps worker failures itself", _CL, "exception=e, failed_at=await self.adapter.get_now()", "exception=e, failed_at=time.time()", "C27.R1"),
-    Twin("R1 reducer jitters with the global RNG", _CL, "            failures = this_execution.attempts + 1\n", "            failures = this_execution.attempts + 1\n            _skew = random.random()\n", "C27.R1"),
-    Twin("R1 wakeup tie-break by uuid", _CL, "        seq = self._wakeup_sequence\n", "        seq = uuid.uuid4().int\n", "C27.R1"),
-    Twin("R1 tick persistence hook timestamps through datetime", _PR, "        tick_data = WorkflowTickAdapter.dump_python(tick, mode=\"json\")\n        try:\n            await self._store.append_tick(",
-         "        tick_data = WorkflowTickAdapter.dump_python(tick, mode=\"json\")\n        tick_data[\"at\"] = datetime.now().isoformat()\n        try:\n            await self._store.append_tick(", "C27.R1"),
+    Twin("R1 reducer jitters with the clock", _CL, "            failures = this_execution.attempts + 1\n", "            failures = this_execution.attempts + 1\n            _skew = time.time() % 1.0\n", "C27.R1"),
+    Twin("R1 reducer imports and uses the global RNG", _CL, "            failures = this_execution.attempts + 1\n", "            import random\n\n            failures = this_execution.attempts + 1 + int(random.random() > 2)\n", "C27.R1"),
+    Twin("R1 wakeup tie-break by the monotonic clock", _CL, "        seq = self._wakeup_sequence\n", "        seq = time.monotonic_ns()\n", "C27.R1"),
+    Twin("R1 chain adapter stamps received ticks with datetime.now", _DBI, "        if isinstance(result, WaitResultTick):\n            self._runtime._cancel_deferred_release(self.run_id)\n",
+         "        if isinstance(result, WaitResultTick):\n            result.tick.__dict__[\"received_at\"] = datetime.now(timezone.utc).timestamp()\n            self._runtime._cancel_deferred_release(self.run_id)\n", "C27.R1"),
     Twin("R1 run id not handed to the reducer", _CL, "                tick, self.state, start, run_id=self.adapter.run_id\n", "                tick, self.state, start\n", "C27.R1"),
     Twin("R1 seed not handed to the policy", _CL, "                    elapsed_time, failures, result.exception, **_seed_kwarg\n", "                    elapsed_time, failures, result.exception\n", "C27.R1"),
     Twin("R1 benign: clock in the replay helper only", _CL, "    state, _ = rewind_in_progress(state, time.time())\n    exit_command", "    _t = time.time()\n    state, _ = rewind_in_progress(state, _t)\n    exit_command", None),
-    Twin("R1 benign: seeded RNG in the reducer", _CL, "            failures = this_execution.attempts + 1\n", "            failures = this_execution.attempts + 1\n            _rng = random.Random(failures)\n", None),
+    Twin("R1 benign: seeded RNG in the reducer", _CL, "            failures = this_execution.attempts + 1\n", "            import random\n\n            failures = this_execution.attempts + 1\n            _rng = random.Random(failures)\n", None),
     Twin("R1 benign: durable clock via a local", _RT, "    async def get_now(self) -> float:\n        return _durable_time()\n", "    async def get_now(self) -> float:\n        now = _durable_time()\n        return now\n", None),
     Twin("R1 benign: explicit seed keyword", _CL, "                    elapsed_time, failures, result.exception, **_seed_kwarg\n", "                    elapsed_time, failures, result.exception, seed=jitter_seed\n", None),
     # ---- R2
@@ -894,7 +914,7 @@ TWINS = [
     Twin("R4 benign: reversed comparison", _TJ, "        return self._replay_index < len(self._entries)\n", "        return len(self._entries) > self._replay_index\n", None),
     Twin("R4 benign: seq from index of the appended entry", _TJ, "        seq_num = len(self._entries)\n        self._entries.append(key)\n", "        self._entries.append(key)\n        seq_num = len(self._entries) - 1\n", None),
     # ---- R5
-    Twin("R5 idle-release adapter answers wait_receive itself", _DBI, "        result = await super().wait_receive(timeout_seconds)\n", "        result = WaitResultTimeout() if timeout_seconds == 0 else await super().wait_receive(timeout_seconds)\n", None),
+    Twin("R5 idle-release adapter answers wait_receive itself", _DBI, "        result = await super().wait_receive(timeout_seconds)\n", "        result = WaitResultTimeout() if timeout_seconds == 0 else await super().wait_receive(timeout_seconds)\n", "C27.R5"),
     Twin("R5 decorator swallows the durable clock", _DBI, "    @override\n    async def write_to_event_stream(self, event: Event) -> None:\n        await super().write_to_event_stream(event)\n        if isinstance(event, WorkflowIdleEvent):\n            self._runtime._schedule_deferred_release(self.run_id)\n",
          "    @override\n    async def write_to_event_stream(self, event: Event) -> None:\n        await super().write_to_event_stream(event)\n        if isinstance(event, WorkflowIdleEvent):\n            self._runtime._schedule_deferred_release(self.run_id)\n\n    @override\n    async def get_now(self) -> float:\n        return asyncio.get_running_loop().time()\n", "C27.R5"),
     Twin("R5 DBOS adapter drops is_replaying", _RT, "    def is_replaying(self) -> bool:\n        if (\n            self._journal is None", "    def _is_replaying_unused(self) -> bool:\n        if (\n            self._journal is None", "C27.R5"),
